@@ -69,7 +69,7 @@ func exchange(w *world, ci *mcirc, payload int64) {
 
 // runFaultCase returns the result and, for dry runs (At < 0 with a plan), the recorded step trace.
 func runFaultCase(t *testing.T, fc faultCase, record bool) (res *histResult, trace []string, fired string) {
-	res = &histResult{classes: map[string]int{}}
+	res = &histResult{classes: map[string]int{}, soft: map[string]int{}}
 	res.bubble = run.Bubble(t, func(t *testing.T) {
 		var plan *faultPlan
 		if fc.Kind == "step" || fc.Kind == "reserve-step" {
